@@ -38,7 +38,11 @@ theorem step_sd_mono (cfg : Cfg) (s : St) (e : Ev) (h : s.stopDraining = true) :
     simp only [step]; split
     · exact h
     · rw [joinAndSync_stopDraining']; exact h
-  | stop => exact stopCall_sd_mono cfg s none true h
+  | stop =>
+    simp only [step]
+    rcases userStop_cases cfg s with ⟨hu, _, _⟩ | hu <;> rw [hu]
+    · exact h
+    · exact stopCall_sd_mono cfg s none true h
   | coordDone r =>
     simp only [step]; split
     · exact h
@@ -134,9 +138,11 @@ theorem step_sd_mono (cfg : Cfg) (s : St) (e : Ev) (h : s.stopDraining = true) :
 theorem stop_sets_sd (cfg : Cfg) (s : St) (hst : s.started = true) (hns : s.stopping = false) :
     (step cfg s .stop).1.stopDraining = true := by
   simp only [step]
-  unfold stopCall
-  rw [stopLoop_stopDraining', hst, hns]
-  rfl
+  rcases userStop_cases cfg s with ⟨hu, hd, _⟩ | hu <;> rw [hu]
+  · exact hd
+  · unfold stopCall
+    rw [stopLoop_stopDraining', hst, hns]
+    rfl
 
 theorem noJoinAfterStopCalled_runFrom (cfg : Cfg) (evs : List Ev) :
     ∀ (s : St) (called : Bool), SInv s → DInv s → (called = true → s.stopDraining = true) →
